@@ -23,6 +23,7 @@ EXPLANATION = (
     " Added after seed round 6: G5's scenario table is evaluated on concrete children (11, 12), component in {None, TRUE, old, new}, max_arity in {0, 2, 5}; the replacement node must cover exactly the old children plus the component."
     " Added after seed round 7: G8 add_atom shares atoms by identifier for both values of keep_all and never folds the neutral weight to a constant."
     " Added after seed round 8: G9 paths of _add_compound for a modifiable node neither consult the sharing index nor return an indexed key."
+    " Added after seed round 10: G3 the single-child shortcut returns X[0] only after the test len(X) == 1 on that same X (a test on set(X) collapses or(a, a) under keep_duplicates)."
 )
 TECHNIQUE = "static analysis: path-wise decision-table extraction, return-of-procedure rule over the class hierarchy"
 LEVEL_TEXT = EXPLANATION
@@ -140,8 +141,15 @@ def rule_g3_g6(repo, col):
                 fail_once("G3", last, "the single-child shortcut returns the child itself on a path where `readonly` and `update is None` were not both established: "
                           "a mutable node (readonly=False), which add_disjunct extends later, is collapsed into its only child, so the later update changes or loses the wrong node",
                           "return content[0] without readonly/update guard")
-            if not has_like(p, lambda s: s.startswith("len(") and s.endswith("== 1"), True):
-                fail_once("G3", last, "the shortcut returns content[0] without having tested that the content has exactly one element", "return content[0] without len == 1")
+            base = v[:-3].replace(" ", "")
+            exact = ("len(%s)==1" % base, "1==len(%s)" % base)
+            if not has_like(p, lambda s: s.replace(" ", "") in exact, True):
+                if has_like(p, lambda s: s.startswith("len(") and s.endswith("== 1"), True):
+                    fail_once("G3", last, "the shortcut returns the first element of %s after a length test on something else (%s): with keep_duplicates the content may hold the same child "
+                              "several times - or(a, a) is then collapsed to a and findall/3 loses the second proof of an answer" % (
+                                  v[:-3][:60], [s for s, t, _ in p.conds if s.startswith("len(") and s.endswith("== 1")][0][:70]), "return content[0] after a length test on another collection")
+                else:
+                    fail_once("G3", last, "the shortcut returns content[0] without having tested that the content has exactly one element", "return content[0] without len == 1")
         else:
             # a call of self._add / self._update
             adds = [(fn, args, node) for fn, args, node in p.calls if fn == "self._add"]
